@@ -43,6 +43,7 @@ type engDriver struct {
 	notify chan struct{}
 	timers []*time.Timer
 	stop   bool
+	t0     time.Time
 }
 
 var errEngFatal = errors.New("injected-engine-fatal")
@@ -89,7 +90,10 @@ func (d *engDriver) ReceiveProbe(timeout time.Duration) (*common.ProbeResponse, 
 		if len(d.queue) > 0 {
 			r := d.queue[0]
 			d.queue = d.queue[1:]
-			st := d.sent[r.TTL]
+			st, ok := d.sent[r.TTL]
+			if !ok {
+				st = d.t0 // a free driver may credit a TTL that was never sent: measure from the start, as the spec does
+			}
 			rtt := time.Since(st)
 			d.w.LogEvent("Got", "ttl", r.TTL, "dest", r.Dest, "ip", r.IP, "err", r.Err, "rtt_us", rtt.Microseconds(),
 				"addr", netip.AddrFrom4([4]byte{10, 0, byte(r.IP >> 8), byte(r.IP)}).String())
@@ -128,7 +132,7 @@ func runEngine(t *testing.T, s *Scenario) (evs []wire.Event) {
 	es := s.Engine
 	synctest.Test(t, func(t *testing.T) {
 		w := wire.New(wire.Script{})
-		d := &engDriver{w: w, es: es, sent: map[int]time.Time{}, notify: make(chan struct{}, 1)}
+		d := &engDriver{w: w, es: es, sent: map[int]time.Time{}, notify: make(chan struct{}, 1), t0: time.Now()}
 		tp := common.TracerouteParams{
 			MinTTL: uint8(s.Min), MaxTTL: uint8(s.Max),
 			TracerouteTimeout: time.Duration(s.TimeoutMs) * time.Millisecond,
